@@ -242,7 +242,17 @@ class IRDLFunctions(InterpreterFunctions):
                             entry.sym_name.data,
                             (TypeAttribute, ParametrizedAttribute),
                             dict(ParametrizedAttribute.__dict__)
-                            | {"name": entry.qualified_name},
+                            | {
+                                "name": entry.qualified_name,
+                                # the copied dataclass methods compare no fields
+                                "__eq__": lambda self, other: (
+                                    type(self) is type(other)
+                                    and self.parameters == other.parameters
+                                ),
+                                "__hash__": lambda self: hash(
+                                    (type(self), self.parameters)
+                                ),
+                            },
                         )
                     )
 
